@@ -6,7 +6,7 @@
    duplications, losses and interleavings.  Negative half (the `lost (reliable)` clause and the
    NACK_FRAG numbering are FALSE on the code as it is): universal refutations + witnesses. *)
 From DustDDS Require Import Base.Machine Proto.FragModel Proto.FragProofs.
-From Coq Require Import Sorted.
+
 Open Scope Z_scope.
 
 (* ------------------------------------------------------------------ writer side *)
